@@ -482,6 +482,9 @@ class FuncGen:
             tgt = [f"{a}, {c}, *{xr}", f"{a}, *{xr}, {c}", f"*{xr}, {a}, {c}"][pos]
             rhs = ", ".join(self.expr(INT, 1) for _ in range(n))
             self.lines.append(f"{ind}{tgt} = {rhs}")
+            # the installed QIS compiler mishandles whole-array ops (result, copy) on the offset
+            # arrays a starred unpack produces; rebuild the rest element-wise (same meaning)
+            self.lines.append(f"{ind}{xr} = array(" + ", ".join(f"{xr}[{j}]" for j in range(rest_n)) + ")")
             self.define(a, INT)
             self.define(c, INT)
             self.define(xr, arr(INT, rest_n))
